@@ -25,19 +25,7 @@ def _field_calls(fa: FA, field: str, method: str):
     return [c for c in fa.calls(method) if A.dotted(A.call_recv(c)) == "self." + field]
 
 
-def check_forget_scope(ck, cm: CacheModel):
-    R = "C05.R2"
-    ck.rule(R, "forget scope: prefix selections end in the key separator; the metadata source deletes exactly the "
-               "function directory / the call's file prefix; every backend forget is mirrored in the cache and the "
-               "metadata source on every path; the memory backend removes from all its tables", 12)
-    # (a) cache: startswith(prefix) with prefix = qualified_name + separator of the key builder
-    kb = FA(ck, "storage_base.MemoryCache._cache_key_for_fn")
-    ret = kb.one(kb.returns(), "return")
-    seps = [s for s in A.strings_in(ret.value)]
-    kb.ck.need(len(seps) == 1, "cache key builder: cannot identify the separator constant")
-    sep = seps[0]
-    ff = FA(ck, "storage_base.MemoryCache.forget_function")
-    sw = ff.some(ff.calls("startswith"), "startswith() selection in MemoryCache.forget_function")
+def _forget_by_scan(ck, R, cm, ff, sw, sep):
     for c in sw:
         deps = ff.deps(c.args[0]) if c.args else set()
         attrs = {d.split(".")[-1] for d in deps if d.startswith("attr:")}
@@ -65,6 +53,96 @@ def check_forget_scope(ck, cm: CacheModel):
     need = {cm.map} | ({cm.refs} if cm.refs else set())
     ck.ob(R, ff.key(None, "slots"), need <= slots, "forget_function filters %s" % sorted(need) if need <= slots else
           "forget_function does not filter %s" % sorted(need - slots), ff.where())
+
+
+def _forget_by_index(ck, R, cm, ff):
+    """forget_function selects its keys from a per-function index (a dict slot of the cache other than
+    the resident map) instead of scanning.  The selection is then only as complete as the index:
+    every site that stores a key into the resident map or the weak-reference table must enter that
+    key into the index in the same method, and the index is keyed by the function's qualified name."""
+    idx = None
+    for loop in ff.stmts(ast.For):
+        for x in ast.walk(loop.iter):
+            f = self_attr(x)
+            if f and f not in (cm.map, cm.refs, cm.queue, cm.counter, cm.budget):
+                idx = f
+    if idx is None:
+        raise AnalysisError("MemoryCache.forget_function selects its keys neither by a startswith() scan nor from an index slot (unsupported idiom)")
+    okq = any("qualified_name" in A.norm(l.iter) and "fn_reference" in A.names_in(l.iter) for l in ff.stmts(ast.For))
+    ck.ob(R, ff.key(None, "index-keyed-by-qualified-name"), okq, "the index is looked up by fn_reference.qualified_name" if okq else
+          "the per-function index is not looked up by the function's qualified name", ff.where())
+    slots = [cm.map] + ([cm.refs] if cm.refs else [])
+    for name, m in cm.cls.methods.items():
+        fa = FA(ck, m)
+        adds = [c for c in fa.calls() if A.call_attr(c) in ("add", "append") and idx in A.attrs_in(A.call_recv(c))]
+        for st in fa.stmts(ast.Assign):
+            for t in st.targets:
+                if isinstance(t, ast.Subscript) and self_attr(t.value) in slots:
+                    k = A.norm(t.slice)
+                    hit = [c for c in adds if c.args and A.norm(c.args[0]) == k]
+                    ok = bool(hit) and all(fa.cfg.must_pass(fa.nodes_all(hit), fa.cfg.exit, start=i) or fa.cfg.must_pass(fa.nodes_all(hit), i) for i in fa.nodes(st))
+                    ck.ob(R, fa.key(st, "indexed:" + self_attr(t.value)), ok,
+                          "the key stored into %s is entered into the index %s" % (self_attr(t.value), idx) if ok else
+                          "`%s` stores a key that is not entered into the per-function index `%s`: forget_function selects from that index only, so this "
+                          "entry survives forgetting its function and the forgotten result is served again" % (A.short(st, 50), idx), fa.where(st))
+    # the loop removes from every slot
+    for sl in slots:
+        if sl == cm.map:
+            okr = bool([c for c in ff.calls(cm.evict.name) if cm.is_self_call(c, cm.evict)])
+        else:
+            okr = any((isinstance(n, ast.Call) and A.call_attr(n) in ("pop",) and self_attr(A.call_recv(n)) == sl)
+                      or (isinstance(n, ast.Delete) and any(isinstance(t, ast.Subscript) and self_attr(t.value) == sl for t in n.targets))
+                      for n in A.walk_body(ff.node))
+        ck.ob(R, ff.key(None, "slots:" + sl), okr, "forget_function removes the selected keys from %s" % sl if okr else
+              "forget_function does not remove the selected keys from %s" % sl, ff.where())
+
+
+def check_delete_enumerates_versions(ck, R):
+    """Deleting a key of the filesystem data source removes EVERY version of it: a key written twice has
+    two version objects and only the newest is named by the link, so resolving the link finds one of them.
+    The non-recursive delete must enumerate the key's versions directory (glob / iterdir under
+    _get_versions_directory(key)) and unlink what it finds; the link goes on every path."""
+    fa = FA(ck, FSDS + "._delete_all_versions_for_key")
+    loops = []
+    for lp in fa.stmts(ast.For):
+        d = fa.deps(lp.iter)
+        if "call:_get_versions_directory" in d and ("call:glob" in d or "call:iterdir" in d or "call:listdir" in d or "call:scandir" in d):
+            if any(A.call_attr(c) in ("unlink", "remove") for c in A.calls_in(lp)):
+                loops.append(lp)
+    ok = bool(loops) and any(fa.cfg.must_pass(fa.nodes(lp), fa.cfg.exit) for lp in loops)
+    ck.ob(R, fa.key(None, "all-versions-enumerated"), ok,
+          "every version object under the key's versions directory is unlinked" if ok else
+          "_delete_all_versions_for_key does not enumerate the versions directory on every path (it deletes what the link resolves to, at most): "
+          "superseded versions of a key written twice stay behind, the function directory is never pruned and a forgotten function stays listed", fa.where())
+    dv = FA(ck, FSDS + ".delete_all_versions")
+    links = [c for c in dv.calls("_delete_non_versioned_link")] + [c for c in dv.calls("_delete_all_versions_for_key")]
+    tests = [n.id for n in dv.cfg.nodes if n.kind == "test" and "exists" in A.norm(n.ast)]
+    okl = bool(links)
+    if okl and tests:
+        # once the key was found to exist, every path to the exit deletes the link (directly or in the per-key helper)
+        t = tests[0]
+        okl = dv.cfg.exit not in dv.cfg.reach([t], removed=dv.nodes_all(links), edge_ok=lambda s_, d_, l_: not (s_ == t and l_ == "F"), include_start=False)
+    ck.ob(R, dv.key(None, "link-removed"), okl, "the link of a deleted key is removed on every path" if okl else
+          "delete_all_versions can finish without removing the key's link", dv.where())
+
+
+def check_forget_scope(ck, cm: CacheModel):
+    R = "C05.R2"
+    ck.rule(R, "forget scope: prefix selections end in the key separator; the metadata source deletes exactly the "
+               "function directory / the call's file prefix; every backend forget is mirrored in the cache and the "
+               "metadata source on every path; the memory backend removes from all its tables", 12)
+    # (a) cache: startswith(prefix) with prefix = qualified_name + separator of the key builder
+    kb = FA(ck, "storage_base.MemoryCache._cache_key_for_fn")
+    ret = kb.one(kb.returns(), "return")
+    seps = [s for s in A.strings_in(ret.value)]
+    kb.ck.need(len(seps) == 1, "cache key builder: cannot identify the separator constant")
+    sep = seps[0]
+    ff = FA(ck, "storage_base.MemoryCache.forget_function")
+    sw = ff.calls("startswith")
+    if sw:
+        _forget_by_scan(ck, R, cm, ff, sw, sep)
+    else:
+        _forget_by_index(ck, R, cm, ff)
     # (b) metadata source
     f1 = FA(ck, MDS + ".forget_function")
     dels = f1.some(f1.calls("delete_all_versions"), "delete_all_versions call")
@@ -532,11 +610,14 @@ def check_override_writes(ck, R):
 
 
 def check(ck):
+    from .memo import check_new_memo_tables
+    ck.run(check_new_memo_tables, ck, "C05.M1", ('storage_base', 'storage_filesystem', 'storage_memory'))
     cm = CacheModel(ck)
     ck.run(check_override_writes, ck, "C05.R6")
     ck.run(check_listing_filters, ck, "C05.R5")
     ck.run(check_keying, ck, "C05.R1")
     ck.run(check_forget_scope, ck, cm)
+    ck.run(check_delete_enumerates_versions, ck, "C05.R2")
     ck.run(check_queries_effect_free, ck, "C05.R3")
     ck.run(check_cache_coherence, ck, cm)
     ck.run(check_path_scheme, ck)
